@@ -1500,3 +1500,135 @@ Proof.
          [RDecode; RMutate 0 (MKwDel "comm"); RDecode].
   simpl. intro H. inversion H as [|? ? _ H2]; subst. inversion H2 as [|? ? E _]; subst. discriminate E.
 Qed.
+
+(* ================================================================== *)
+(* submit_tasks: every description of a bulk ends as its own normal form *)
+
+Section Bulk.
+  Variable T : table.
+  Hypothesis W : WF T.
+  Hypothesis uid_type : lookup uid_key (t_schema T) = Some (FAtom TStr).
+  Hypothesis uid_untouched : ~ In uid_key (touched T).
+
+  (* d' is d, or the normal form of d -- with the uid d has, or with some generated one if
+     it has none.  Nothing but d occurs in it: no other element of any bulk. *)
+  Definition nf_of (d d' : descr) : Prop :=
+    d' = d \/ exists u0 u, uid_str (with_uid d u0) = Some u /\ u <> EmptyString
+                           /\ verify T (with_uid d u0) = inr d'.
+
+  Lemma uid_str_getv d u : uid_str d = Some u -> getv uid_key d = VA (AStr u).
+  Proof.
+    unfold uid_str. destruct (getv uid_key d) as [[| | | |s]| |]; try discriminate.
+    intro H; injection H as ->; reflexivity.
+  Qed.
+
+  Lemma verified_uid d u d' :
+    uid_str d = Some u -> verify T d = inr d' -> getv uid_key d' = VA (AStr u).
+  Proof.
+    intros Hu Hv. pose proof (verify_untouched T W uid_key _ d d' Hv uid_untouched uid_type) as Hc.
+    rewrite (uid_str_getv _ _ Hu) in Hc. simpl in Hc. injection Hc as Hc. symmetry; exact Hc.
+  Qed.
+
+  Lemma nf_of_step d d' u0 u d'' :
+    nf_of d d' -> uid_str (with_uid d' u0) = Some u -> u <> EmptyString ->
+    verify T (with_uid d' u0) = inr d'' -> nf_of d d''.
+  Proof.
+    intros [->|(v0 & v & Hs & Hne & Hv)] Hu Hn Hv2.
+    - right. exists u0, u. repeat split; assumption.
+    - (* d' is verified already: it has its uid, a second verify changes nothing *)
+      assert (Hg : getv uid_key d' = VA (AStr v)) by (apply (verified_uid _ _ _ Hs Hv)).
+      assert (Hw : with_uid d' u0 = d').
+      { unfold with_uid. rewrite Hg. simpl.
+        destruct (String.eqb_spec v EmptyString) as [->|_]; [congruence|reflexivity]. }
+      rewrite Hw in Hv2. rewrite (verify_idempotent T W _ _ Hv) in Hv2. injection Hv2 as <-.
+      right. exists v0, v. repeat split; assumption.
+  Qed.
+
+  Lemma gen_uid_nonempty n : gen_uid n <> EmptyString.
+  Proof. unfold gen_uid. simpl. discriminate. Qed.
+
+  (* invariant: every slot that was not the refused one of some call is the normal form of
+     what it was at the start *)
+  Definition bulk_inv (st0 : dstore) (bad : list nat) (st : dstore) : Prop :=
+    forall i d', ~ In i bad -> slot_get i st = Some d' ->
+                 exists d, slot_get i st0 = Some d /\ nf_of d d'.
+
+  Lemma submit_loop_inv st0 ids : forall s made s' out made' bad,
+    submit_loop (verify T) ids s made = (s', out, made') ->
+    bulk_inv st0 bad (ss_store s) -> bulk_inv st0 (out_slot out ++ bad) (ss_store s').
+  Proof.
+    induction ids as [|i r IH]; intros s made s' out made' bad H Inv.
+    - simpl in H. injection H as <- <- _. exact Inv.
+    - simpl in H.
+      destruct (slot_get i (ss_store s)) as [d|] eqn:Ed.
+      2:{ injection H as <- <- _. intros k d' Hk. apply Inv. intro; apply Hk; right; assumption. }
+      destruct (uid_str (with_uid d (gen_uid (ss_gen s)))) as [u|] eqn:Eu.
+      2:{ injection H as <- <- _. intros k d' Hk. apply Inv. intro; apply Hk; right; assumption. }
+      destruct (negb (negb (truthy (getv uid_key d))) && mem_str u (ss_known s)) eqn:Edup.
+      { injection H as <- <- _. intros k d' Hk. apply Inv. intro; apply Hk; right; assumption. }
+      destruct (verify T (with_uid d (gen_uid (ss_gen s)))) as [e|v] eqn:Ev.
+      + injection H as <- <- _. simpl. intros k d' Hk Hg.
+        assert (Hki : i <> k) by (intro; subst k; apply Hk; left; reflexivity).
+        rewrite slot_get_set_other in Hg by exact Hki. apply Inv; [|exact Hg].
+        intro; apply Hk; right; assumption.
+      + apply (IH _ _ _ _ _ bad H). simpl. intros k d' Hk Hg.
+        destruct (Nat.eq_dec i k) as [<-|Hki].
+        * rewrite slot_get_set_same in Hg. injection Hg as <-.
+          destruct (Inv i d Hk Ed) as (d0 & H0 & Hn). exists d0; split; [exact H0|].
+          apply (nf_of_step d0 d (gen_uid (ss_gen s)) u v Hn Eu); [|exact Ev].
+          unfold with_uid in Eu. destruct (truthy (getv uid_key d)) eqn:Et.
+          -- intro He; subst u. rewrite (uid_str_getv _ _ Eu) in Et. discriminate Et.
+          -- unfold uid_str in Eu. rewrite getv_set_same in Eu. injection Eu as <-. apply gen_uid_nonempty.
+        * rewrite slot_get_set_other in Hg by exact Hki. apply Inv; assumption.
+  Qed.
+
+  Lemma submit_calls_inv st0 calls : forall s s' res bad,
+    submit_calls (verify T) calls s = (s', res) ->
+    bulk_inv st0 bad (ss_store s) ->
+    bulk_inv st0 (List.concat (map (fun r => out_slot (fst (fst r))) res) ++ bad) (ss_store s').
+  Proof.
+    induction calls as [|ids r IH]; intros s s' res bad H Inv.
+    - simpl in H. injection H as <- <-. exact Inv.
+    - simpl in H. unfold submit_call in H.
+      destruct (submit_loop (verify T) ids s []) as [[s1 out] made] eqn:E1.
+      destruct (submit_calls (verify T) r s1) as [s2 rest] eqn:E2.
+      injection H as <- <-. simpl.
+      pose proof (submit_loop_inv st0 ids _ _ _ _ _ bad E1 Inv) as Inv1.
+      pose proof (IH _ _ _ _ E2 Inv1) as Inv2.
+      intros k d' Hk. apply Inv2. intro Hin. apply Hk.
+      apply in_app_or in Hin as [Hin|Hin]; [|apply in_app_or in Hin as [Hin|Hin]].
+      + apply in_or_app; left. apply in_or_app; right; exact Hin.
+      + apply in_or_app; left. apply in_or_app; left; exact Hin.
+      + apply in_or_app; right; exact Hin.
+  Qed.
+
+  (* bulk independence: after any sequence of submit calls, on any bulks, every description
+     object that was not itself refused is its own source or the normal form of its own
+     source -- whatever the other elements were, refused or not *)
+  Theorem submit_bulk_independent st0 known gen calls s' res :
+    submit_calls (verify T) calls (mkSub st0 known gen) = (s', res) ->
+    forall i d', ~ In i (List.concat (map (fun r => out_slot (fst (fst r))) res)) ->
+                 slot_get i (ss_store s') = Some d' ->
+                 exists d, slot_get i st0 = Some d /\ nf_of d d'.
+  Proof.
+    intros H i d' Hi Hg.
+    assert (Inv0 : bulk_inv st0 [] st0) by (intros k dk _ Hk; exists dk; split; [exact Hk|left; reflexivity]).
+    pose proof (submit_calls_inv st0 calls _ _ _ [] H Inv0) as Inv.
+    apply (Inv i d'); [rewrite app_nil_r; exact Hi|exact Hg].
+  Qed.
+End Bulk.
+
+Theorem submit_bulk_independent_b T :
+  wf_table T = true ->
+  ftype_is TStr (lookup uid_key (t_schema T)) = true ->
+  mem_str uid_key (touched T) = false ->
+  forall st0 known gen calls s' res,
+    submit_calls (verify T) calls (mkSub st0 known gen) = (s', res) ->
+    forall i d', ~ In i (List.concat (map (fun r => out_slot (fst (fst r))) res)) ->
+                 slot_get i (ss_store s') = Some d' ->
+                 exists d, slot_get i st0 = Some d /\ nf_of T d d'.
+Proof.
+  intros Hw Ht Hm. apply (submit_bulk_independent T (wf_table_WF T Hw)).
+  - apply ftype_is_spec; exact Ht.
+  - apply mem_str_false; exact Hm.
+Qed.
